@@ -127,7 +127,8 @@ class Ctx:
         if simulate:
             cmd += ["-simulate", simulate]
         cmd.append(os.path.join(SPEC, module + ".tla"))
-        env = dict(os.environ, JAVA_TOOL_OPTIONS=JAVA_OPTS)
+        # the depth-first queue helps trace validation only; it does not support TLC's periodic checkpoints (runs > 30 min)
+        env = dict(os.environ, JAVA_TOOL_OPTIONS=JAVA_OPTS if trace_run else "-Xss1g")
         if env_extra:
             env.update(env_extra)
         t0 = time.time()
